@@ -27,6 +27,7 @@ type backend struct {
 	panics      int         // panics injected so far
 	errKinds    bool        // draw error *values* of many kinds (linux / syscall errno, os.Err*, wrapped, opaque)
 	dirRoot     bool        // the root is always a directory
+	fillByOff   bool        // ReadAt fills the buffer with byte(offset)
 	panicOn     string      // the next call of this method panics (once)
 	fs          *memfs      // if set: outcomes of the tree operations come from this file system (K5)
 	presetQIDs  []p9.QID    // fs mode: the QIDs the next call hands out
@@ -494,6 +495,12 @@ func (f *sfile) ReadAt(p []byte, offset int64) (int, error) {
 	}
 	data := b.r.bytesN(n)
 	eof := b.r.chance(1, 6)
+	if b.fillByOff {
+		for i := range data {
+			data[i] = byte(offset)
+		}
+		eof = false
+	}
 	if b.fs != nil && f.obj != nil && !f.obj.isDir() {
 		data = f.obj.content()
 		if offset < int64(len(data)) {
